@@ -514,6 +514,41 @@ class Engine:
                 return True
             if rev_lt is True or (rev_le is True and eq is False):
                 return False
+        # transitivity over the strict-order facts the path has fixed so far
+        edges = {}
+        for c in self.keep:
+            v = self.decided.get(c.get_id())
+            if v is None or not z3.is_app(c) or c.decl().kind() not in (z3.Z3_OP_STRING_LT, z3.Z3_OP_STRING_LE):
+                continue
+            x, y = c.arg(0), c.arg(1)
+            lt = c.decl().kind() == z3.Z3_OP_STRING_LT
+            if lt and v:
+                edges.setdefault(x.get_id(), set()).add(y.get_id())
+            elif (not lt) and (not v):          # not (x <= y)  =>  y < x
+                edges.setdefault(y.get_id(), set()).add(x.get_id())
+            elif lt and not v:                  # not (x < y) and x != y  =>  y < x
+                e2 = self._known(x == y)
+                if e2 is None:
+                    e2 = self._known(y == x)
+                if e2 is False:
+                    edges.setdefault(y.get_id(), set()).add(x.get_id())
+
+        def reach(src, dst):
+            seen, stack = set(), [src]
+            while stack:
+                n = stack.pop()
+                if n == dst:
+                    return True
+                if n in seen:
+                    continue
+                seen.add(n)
+                stack.extend(edges.get(n, ()))
+            return False
+        if a.get_id() != b.get_id():
+            if reach(a.get_id(), b.get_id()):
+                return True         # a < b (hence also a <= b)
+            if reach(b.get_id(), a.get_id()):
+                return False        # b < a
         return None
 
     def _regular_decide(self, cond):
@@ -560,7 +595,10 @@ class Engine:
         return self.check_holds(cond, label)
 
     # ---------------------------------------------------------------- exploration
-    def explore(self, fn, stop_on_cex=True, prefix=None, frontier_depth=None):
+    def explore(self, fn, stop_on_cex=True, prefix=None, frontier_depth=None, slice_s=None):
+        """slice_s: after that many seconds the job stops at the next path end and hands the unexplored subtrees back
+        (as decision prefixes in self.frontier), so that the pool can balance long-tailed jobs."""
+        t_start = time.time()
         Engine.current = self
         self.trail = [[d, False, None] for d in (prefix or [])]
         nprefix = len(self.trail)
@@ -595,6 +633,12 @@ class Engine:
             while len(self.trail) > nprefix and not self.trail[-1][1]:
                 self.trail.pop()
             if len(self.trail) <= nprefix:
+                break
+            if slice_s is not None and time.time() - t_start > slice_s:
+                for i in range(nprefix, len(self.trail)):
+                    if self.trail[i][1]:
+                        self.frontier.append([t[0] for t in self.trail[:i]] + [not self.trail[i][0]])
+                self.stats["handed_back"] = len(self.frontier)
                 break
             self.trail[-1] = [not self.trail[-1][0], False, self.trail[-1][2]]
             if self.stats["paths"] >= self.max_paths:
